@@ -371,6 +371,11 @@ class BaseEvolutionOperations(object):
                 new_attrs=op['new_attrs']))
         elif op_type == 'delete_column':
             sql_result.add(self.delete_column(model, op['field']))
+
+            # The indexes covering the column are dropped along with it.
+            self.database_state.remove_column_indexes(
+                table_name=model._meta.db_table,
+                column=op['field'].column)
         elif op_type == 'change_meta':
             evolve_func = getattr(self, 'change_meta_%s' % op['prop_name'])
             sql_result.add(evolve_func(model, op['old_value'],
